@@ -122,6 +122,71 @@ theorem setItem_create_below (cls : Cls) (kvs : List (Str × Val)) (q : Pos) (kc
   exact setItem_create_names cls kvs (q ++ [Seg.key name]) ocls okvs n ns v t' fuel hpp hP hfresh hnn hns hset
     (by rw [hlen]; omega)
 
+/-- **core of the middle case, any plain `P`**: tokens of `P`, the index token `[e]` (`0` / `-1`) on the dict at `P`, then
+fresh names `n :: ns` -/
+theorem setItem_hidden_create_middle_toks (cls : Cls) (kvs : List (Str × Val)) (P : Pos) (ocls : Cls)
+    (okvs : List (Str × Val)) (e : IdxSp) (n : Str) (ns : List Str) (v t' : Val) (xp : Str) (fuel : Nat)
+    (hp : PlainPos P) (hP : getAt (.dict cls kvs) P = some (.dict ocls okvs)) (he : e.val = 0 ∨ e.val = -1)
+    (hfresh : lookup n okvs = Option.none) (hnn : PlainKey n) (hns : ∀ m ∈ ns, PlainKey m)
+    (hset : setAt (.dict cls kvs) (P ++ [.key n]) (chain ns v) = some t')
+    (hq : startsWith xp ['?'] = false) (hpc : hasPathChar xp = true)
+    (htok : tokenize xp = mergedToks P ++ bracket e.text :: n :: ns)
+    (hf : fuel ≥ 2 * P.length + 2) :
+    setItem fuel (.dict cls kvs) xp v = (t', .ok ()) := by
+  have hlen := mergedToks_length_le P
+  obtain ⟨f', en, h1, _, hwalk⟩ := find_walk (.dict cls kvs) true (spellsF_merged P _ _ hp hP)
+    (bracket e.text :: n :: ns) (by simp) fuel [] slash true rfl (by omega)
+  obtain ⟨f, rfl⟩ : ∃ f, f' = f + 2 := ⟨f' - 2, by omega⟩
+  rw [List.nil_append, hidden_find_step (f + 1) _ en true _ _ _ _ _ (.dict ocls okvs) (n :: ns) (by simp) hP rfl e.idxTok he,
+    find_name_miss f _ false true P _ n n .none ns ocls okvs hP hnn.keyTok.split hnn.ne hnn.notUp
+      hnn.keyTok.notStar hfresh] at hwalk
+  obtain ⟨root', par, ni, hadd, hst⟩ := add_store_chain (.dict cls kvs) P ocls okvs n ns v t' hP hnn hfresh hns hset
+  unfold setItem
+  simp only [hq, Bool.false_and, Bool.false_eq_true, if_false, hpc, if_true, htok, hwalk, hiddenPlace_mk_at,
+    List.isEmpty_cons, Bool.not_false, hadd, hst]
+
+/-- **`…P…/[e]/n/ns…`: the hidden index as a step of its own in the middle of a creation path** -/
+theorem setItem_hidden_create_middle_own (cls : Cls) (kvs : List (Str × Val)) (P : Pos) (ocls : Cls)
+    (okvs : List (Str × Val)) (e : IdxSp) (n : Str) (ns : List Str) (v t' : Val) (fuel : Nat)
+    (hp : PlainPos P) (hP : getAt (.dict cls kvs) P = some (.dict ocls okvs)) (he : e.val = 0 ∨ e.val = -1)
+    (hfresh : lookup n okvs = Option.none) (hnn : PlainKey n) (hns : ∀ m ∈ ns, PlainKey m)
+    (hset : setAt (.dict cls kvs) (P ++ [.key n]) (chain ns v) = some t')
+    (hf : fuel ≥ 2 * P.length + 2) :
+    setItem fuel (.dict cls kvs) (slash ++ renderPos P ++ slash ++ bracket e.text ++ renderPos ((n :: ns).map Seg.key)) v
+      = (t', .ok ()) := by
+  have hall : ∀ m ∈ n :: ns, PlainKey m := by
+    intro m hm; simp at hm; rcases hm with rfl | hm; exact hnn; exact hns m hm
+  apply setItem_hidden_create_middle_toks cls kvs P ocls okvs e n ns v t' _ fuel hp hP he hfresh hnn hns hset _ _ _ hf
+  · simp [slash, startsWith, List.append_assoc]
+  · simp [hasPathChar, slash]
+  · rw [tokenize_then_names _ (n :: ns) hall]
+    have : slash ++ renderPos P ++ slash ++ bracket e.text = ('/' :: renderPos P) ++ '/' :: bracket e.text := by
+      simp [slash]
+    rw [this, tokenize_append_slash, tokenize_render P hp, tokenize_bracket _ (hidden_cleanIdx e)]
+    simp
+
+/-- **`…q0…[i][e]/n/ns…`: a hidden index on a list element (a dict) in the middle of a creation path** -/
+theorem setItem_hidden_create_middle_elem (cls : Cls) (kvs : List (Str × Val)) (q0 : Pos) (i : Nat) (ocls : Cls)
+    (okvs : List (Str × Val)) (e : IdxSp) (n : Str) (ns : List Str) (v t' : Val) (fuel : Nat)
+    (hp : PlainPos (q0 ++ [Seg.idx i])) (hP : getAt (.dict cls kvs) (q0 ++ [Seg.idx i]) = some (.dict ocls okvs))
+    (he : e.val = 0 ∨ e.val = -1)
+    (hfresh : lookup n okvs = Option.none) (hnn : PlainKey n) (hns : ∀ m ∈ ns, PlainKey m)
+    (hset : setAt (.dict cls kvs) (q0 ++ [Seg.idx i] ++ [.key n]) (chain ns v) = some t')
+    (hf : fuel ≥ 2 * (q0.length + 1) + 2) :
+    setItem fuel (.dict cls kvs)
+      (slash ++ renderPos (q0 ++ [Seg.idx i]) ++ bracket e.text ++ renderPos ((n :: ns).map Seg.key)) v = (t', .ok ()) := by
+  have hall : ∀ m ∈ n :: ns, PlainKey m := by
+    intro m hm; simp at hm; rcases hm with rfl | hm; exact hnn; exact hns m hm
+  apply setItem_hidden_create_middle_toks cls kvs (q0 ++ [Seg.idx i]) ocls okvs e n ns v t' _ fuel hp hP he hfresh hnn hns
+    hset _ _ _ (by simpa using hf)
+  · simp [slash, startsWith]
+  · simp [hasPathChar, slash]
+  · rw [tokenize_then_names _ (n :: ns) hall, renderPos_snoc_idx, tokenize_append_bracket _ e.text (hidden_cleanIdx e),
+      ← renderPos_snoc_idx,
+      show slash ++ renderPos (q0 ++ [Seg.idx i]) = '/' :: renderPos (q0 ++ [Seg.idx i]) from rfl,
+      tokenize_render _ hp]
+    simp
+
 /-! ### (3) the refusal for an element of a list -/
 
 /-- item `[1]` of the hidden list around a single value that is element `i` of a list: the place `_find` reports for
